@@ -300,7 +300,7 @@ def cmd_report(a):
         if a.verbose:
             for m in d["mutants"]:
                 if m.get("check") == "survived" and m.get("tests") == "pass":
-                    print("   ", m["id"], m["file"], m["line"], repr(m["old"]), "->", repr(m["new"]), "|", m["text"][:100], "|", m.get("review", "UNREVIEWED"))
+                    print("   ", m["id"], m["file"], m["line"], repr(m["old"]), "->", repr(m["new"]), "|", m["text"][:100], "|", "cross=" + json.dumps(m.get("cross", {})), "|", m.get("review", "UNREVIEWED"))
 
 
 def cmd_patch(a):
@@ -325,6 +325,55 @@ def cmd_patch(a):
         subprocess.run(["git", "-C", w, "clean", "-fdq"], check=False)
 
 
+def cmd_cross(a):
+    """survivors of <ID>'s own check that pass the tests: run the checks of the OTHER properties anchored in the mutated file"""
+    path = os.path.join(OUT, a.id + ".json")
+    d = json.load(open(path))
+    props = properties()
+    todo = [m for m in d["mutants"] if m.get("check") == "survived" and m.get("tests") == "pass" and ("cross" not in m or a.redo)]
+    for k in range(a.workers):
+        worker_dirs(k + 4)          # (workers 0-3 belong to run / tests)
+    import queue
+    q = queue.Queue()
+    for k in range(a.workers):
+        q.put(k + 4)
+
+    def job(m):
+        others = [pid for pid, pr in sorted(props.items()) if pid != a.id and m["file"] in pr["anchors"].get("files", [])]
+        if a.only:
+            others = [o for o in others if o in a.only.split(",")]
+        k = q.get()
+        try:
+            res = {}
+            for pid in others:
+                r = run_one(k, m, "quick", pid)
+                res[pid] = r["check"]
+                if r["check"] == "killed" and not a.all:
+                    break
+        finally:
+            q.put(k)
+        m["cross"] = res
+        print(m["id"], m["file"], m["line"], repr(m["old"]), "->", repr(m["new"]), "cross:", res, flush=True)
+        json.dump(d, open(path, "w"), indent=1)
+    with ThreadPoolExecutor(a.workers) as ex:
+        list(ex.map(job, todo))
+    json.dump(d, open(path, "w"), indent=1)
+
+
+def cmd_review(a):
+    """record the hand review of surviving mutants: review <ID> <mutant-id[,mutant-id...]> <verdict text>"""
+    path = os.path.join(OUT, a.id + ".json")
+    d = json.load(open(path))
+    ids = set(a.mutants.split(","))
+    n = 0
+    for m in d["mutants"]:
+        if m["id"] in ids or m["id"].split("-")[1] in ids:
+            m["review"] = a.text
+            n += 1
+    json.dump(d, open(path, "w"), indent=1)
+    print("reviewed", n)
+
+
 def cmd_clean(a):
     for k in range(32):
         w = os.path.join(SCR, "w%d" % k)
@@ -342,9 +391,11 @@ def main():
     t = sub.add_parser("tests"); t.add_argument("id"); t.add_argument("--workers", type=int, default=4)
     p = sub.add_parser("report"); p.add_argument("ids", nargs="*"); p.add_argument("-v", "--verbose", action="store_true")
     pp = sub.add_parser("patch"); pp.add_argument("patch"); pp.add_argument("ids"); pp.add_argument("tier", nargs="?", default="quick"); pp.add_argument("--worker", type=int, default=9)
+    cr = sub.add_parser("cross"); cr.add_argument("id"); cr.add_argument("--workers", type=int, default=4); cr.add_argument("--redo", action="store_true"); cr.add_argument("--all", action="store_true"); cr.add_argument("--only", default="")
+    rv = sub.add_parser("review"); rv.add_argument("id"); rv.add_argument("mutants"); rv.add_argument("text")
     sub.add_parser("clean")
     a = ap.parse_args()
-    {"gen": cmd_gen, "run": cmd_run, "tests": cmd_tests, "report": cmd_report, "clean": cmd_clean, "patch": cmd_patch}[a.cmd](a)
+    {"gen": cmd_gen, "run": cmd_run, "tests": cmd_tests, "report": cmd_report, "clean": cmd_clean, "patch": cmd_patch, "review": cmd_review, "cross": cmd_cross}[a.cmd](a)
 
 
 if __name__ == "__main__":
